@@ -975,16 +975,39 @@ impl Log {
 	}
 
 	pub fn clean_logs(&self, max_count: usize) -> Result<bool> {
-		let mut cleaned: Vec<_> = {
+		let mut pending: VecDeque<_> = {
 			let mut queue = self.cleanup_queue.write();
 			let count = min(max_count, queue.len());
 			queue.drain(0..count).collect()
 		};
-		for (id, ref mut file) in cleaned.iter_mut() {
+		let mut cleaned = Vec::with_capacity(pending.len());
+		let mut result = Ok(());
+		while let Some((id, mut file)) = pending.pop_front() {
 			log::debug!(target: "parity-db", "Cleaned: {}", id);
-			try_io!(file.rewind());
-			try_io!(file.set_len(0));
-			file.sync_all().map_err(Error::Io)?;
+			let reclaimed: Result<()> = (|| {
+				try_io!(file.rewind());
+				try_io!(file.set_len(0));
+				file.sync_all().map_err(Error::Io)?;
+				Ok(())
+			})();
+			match reclaimed {
+				Ok(()) => cleaned.push((id, file)),
+				Err(e) => {
+					// The file may still hold its (already enacted) records. Keep it and every
+					// younger file at the head of the queue, in order: a log file that is left
+					// behind untracked while younger ones are reclaimed later would be replayed
+					// by the next open in front of a gap in the record sequence.
+					pending.push_front((id, file));
+					result = Err(e);
+					break
+				},
+			}
+		}
+		if !pending.is_empty() {
+			let mut queue = self.cleanup_queue.write();
+			while let Some(entry) = pending.pop_back() {
+				queue.push_front(entry);
+			}
 		}
 		// Move cleaned logs back to the pool
 		let mut pool = self.log_pool.write();
@@ -998,6 +1021,7 @@ impl Log {
 				self.drop_log(id)?;
 			}
 		}
+		result?;
 		Ok(!self.cleanup_queue.read().is_empty())
 	}
 
